@@ -21,11 +21,15 @@ def explore(res, rng, n):
     from scipy import stats
     from ffpack import rrm
     for i in range(n):
-        d = rng.choice([1, 2, 2, 3, 4, 5])
+        d = rng.choice([1, 2, 2, 3, 4, 5]) if i >= 2 else 3 + i
         mus = [float(rng.randint(-3, 6)) for _ in range(d)]
         sig = [float(rng.choice([1, 2, 3])) * rng.choice([1.0, 0.5]) for _ in range(d)]
         c = [float(rng.choice([-3, -2, -1, 1, 2, 3])) for _ in range(d)]
         R = random_corr(rng, d) if (d > 1 and rng.random() < 0.7) else np.eye(d)
+        if i < 2 and d >= 3:
+            # corpus: sparse correlation, a zero entry before a non-zero one in the first row
+            R = np.eye(d); R[0, 2] = R[2, 0] = 0.5; R[1, 2] = R[2, 1] = 0.3
+        res.stat('corr_identity' if np.allclose(R, np.eye(d)) else ('corr_sparse' if np.any(np.array(R) == 0) else 'corr_dense'))
         Sigma = np.diag(sig) @ R @ np.diag(sig)
         sd = math.sqrt(float(np.array(c) @ Sigma @ np.array(c)))
         target_beta = rng.choice([-1.5, 0.7, 1.5, 2.5, 3.5])
@@ -74,10 +78,12 @@ def explore(res, rng, n):
         if not np.allclose(nat.getX(u)[0], x, rtol=1e-9, atol=1e-9):
             fail(res, 'x* is not the Nataf image of u*', case, None)
     # ---- one variable, any marginal: pf = F(c)
-    fams = [stats.norm(1, 2), stats.lognorm(0.5), stats.expon(scale=2.0), stats.gamma(3.0), stats.uniform(0, 4), stats.weibull_min(2.0, scale=2.0),
-            stats.gumbel_r(1.0, 2.0)]
+    fams = [stats.norm(1, 2), stats.lognorm(0.5), stats.lognorm(1.0), stats.expon(scale=2.0), stats.gamma(3.0), stats.gamma(0.8), stats.uniform(0, 4),
+            stats.weibull_min(2.0, scale=2.0), stats.weibull_min(0.7), stats.gumbel_r(1.0, 2.0), stats.gumbel_l(0.0, 1.0)]
     for ds in fams:
-        for q in (0.01, 0.2, 0.7):
+        # thresholds in both tails, on both sides of the median, and between the median and the mean of skewed marginals
+        qm = float(ds.cdf(ds.mean()))
+        for q in (0.01, 0.2, 0.7, 0.47, 0.53, (0.5 + qm) / 2 if abs(qm - 0.5) > 0.01 else 0.9, rng.uniform(0.03, 0.97)):
             cth = float(ds.ppf(q))
             g1 = lambda X, cth=cth: X[0] - cth
             res.evaluations += 1
@@ -98,7 +104,7 @@ def explore(res, rng, n):
 def run(tier, seed):
     res = core.Result(PID, tier, seed)
     res.rule = ('random linear limit states of jointly normal variables: dimension 1-5, integer coefficients, random positive-definite '
-                'correlation, target beta in {-1.5 .. 3.5} (origin in the failure set included); one-variable problems over seven marginal '
+                'correlation, target beta in {-1.5 .. 3.5} (origin in the failure set included); one-variable problems (thresholds in both tails, around the median, between median and mean) over eleven marginal '
                 'families; distinct by problem')
     core.prove(res, PID, MODULES, clean=(tier == 'thorough'))
     n = 12 if tier == 'quick' else 300
